@@ -1,4 +1,5 @@
 import Bt.Engine.Ops
+import Bt.Algos.Rebalance
 import Bt.Driver.Tok
 /- Engine part of the driver: (de)serialisation of worlds and dispatch of `step` requests at `Float`. -/
 namespace Bt.Driver
@@ -111,6 +112,12 @@ def pStep : P (Except Err (World Float)) := do
   | "rebalance" => do
     let path ← list nat; let wt ← float; let c ← nat; let b ← opt float; let u ← bool
     pure (opRebalance cfg w path wt c b u)
+  | "rebal" => do
+    let path ← list nat
+    let targets ← list (do let i ← nat; let x ← float; pure (i, x))
+    let cash ← opt float
+    let notional ← opt float
+    pure (algoRebalance cfg w path targets cash notional)
   | "read" => do
     let path ← list nat; let g ← nat
     pure (opRead cfg w path (getterOf g))
